@@ -9,7 +9,7 @@ from . import core
 
 
 def make_env(jp, sigs: Sequence[Tuple[str, Sequence[str], str]], log: List[Any], base=None,
-             lo=None, hi=None, nondeterministic: bool = False, max_depth=None):
+             lo=None, hi=None, nondeterministic: bool = False, max_depth=None, rebind: bool = False):
     """A fresh environment (subclass instance) with probe functions registered."""
     from jsonpath_rfc9535.function_extensions import ExpressionType, FilterFunction  # noqa: PLC0415
 
@@ -77,6 +77,13 @@ def make_env(jp, sigs: Sequence[Tuple[str, Sequence[str], str]], log: List[Any],
         Probe.__name__ = f"Probe_{name}"
         return Probe()
 
+    if rebind:
+        # the registry is an attribute: a user may also build a new mapping and assign it
+        reg = dict(env.function_extensions)
+        for name, params, ret in sigs:
+            reg[name] = build(name, list(params), ret)
+        env.function_extensions = reg
+        return env
     for name, params, ret in sigs:
         env.function_extensions[name] = build(name, list(params), ret)
     return env
